@@ -75,7 +75,15 @@ def _generic_param_finite(lib, fn_name, ty):
     not iterable at all, like the reader), so the loop over the parameter ends."""
     if ty is None:
         return False
-    m = re.match(r"<(\w+) as std::iter::IntoIterator>::IntoIter$", ty.replace("&mut ", "").strip())
+    if any(x in ty for x in INFINITE):
+        return False
+    t = ty.replace("&mut ", "").strip()
+    for _ in range(12):          # finiteness-preserving adapters around the parameter's iterator
+        m = re.match(ADAPTERS, t)
+        if not m:
+            break
+        t = t[m.end():]
+    m = re.match(r"<(\w+) as std::iter::IntoIterator>::IntoIter($|[,>])", t)
     if not m:
         return False
     bodies = getattr(lib, "raw_bodies", None) or lib.bodies
@@ -280,9 +288,44 @@ class AbstractReader:
         self.memo[key] = ans
         return ans
 
+    def mirrors(self, body, h, blocks):
+        """Locals of type Option<u8> that, at the loop header, hold the answer of the most recent reader peek()/next()
+        - i.e. the reader's current byte (`let mut cur = r.peek()?; while let Some(..) = cur { cur = r.next()?; }`)."""
+        from lib.prov import Prov
+        pr = Prov(body, common.LOOK)
+        moving = {c.bb for c in body.calls if is_reader_next(c) or
+                  ((c.name or "") in self.touches and not is_reader_peek(c) and not c.is_dyn())}
+        out = []
+        for l in range(body.arg_count + 1, len(body.raw["locals"])):
+            if body.local_ty(l) != "std::option::Option<u8>":
+                continue
+            try:
+                at = pr.place_origins(l, ())
+            except Exception:
+                continue
+            calls = [body.call_at.get(a[1]) for a in at if a[0] == "call"]
+            if not calls or len(calls) != len([a for a in at if a[0] != "via"]) or \
+                    not all(c is not None and (is_reader_next(c) or is_reader_peek(c)) for c in calls):
+                continue
+            obbs = {c.bb for c in calls}
+            if not (obbs - blocks) or not (obbs & blocks):
+                continue            # set in front of the loop and refreshed inside it
+            if (moving & blocks) - obbs:
+                continue            # another call moves the reader inside the loop: the local may be stale
+            stale = False
+            for c in calls:
+                if c.bb in blocks or c.target is None:
+                    continue
+                if (body.reachable(c.target, avoid={h}) & moving) - obbs:
+                    stale = True
+            if not stale:
+                out.append(l)
+        return out
+
     def loop_spins(self, body, h, blocks):
         """Current-byte values for which the loop can return to its header without having consumed."""
         out = []
+        mir = self.mirrors(body, h, blocks)
         for cur in ALLCUR:
             flag = {"consumed": False}
             hits = []
@@ -297,8 +340,11 @@ class AbstractReader:
                 return None
             pe.visit_hook = hook
             self.runs += 1
+            env0 = {CUR: cur}
+            for l in mir:
+                env0[l] = NONE if cur == EOF else some(cur)
             try:
-                pe.run(start=h, env={CUR: cur})
+                pe.run(start=h, env=env0)
             except RuntimeError:
                 hits.append(-1)
             if hits:
